@@ -5,6 +5,8 @@ import (
 	"image"
 
 	"github.com/evanoberholster/imagemeta/imagehash"
+
+	"verifsim/world"
 )
 
 // Hash entry points.
@@ -86,3 +88,30 @@ func Distance64(a, b uint64) int { return int(imagehash.PHash64(a).Distance(imag
 func Distance256(a, b [4]uint64) int {
 	return int(imagehash.PHash256(a).Distance(imagehash.PHash256(b)))
 }
+
+type atHooker interface{ SetOnAt(func()) }
+
+// HashEntry wraps a hash call on a fixed image as an entry point, so that hash calls can stand
+// in histories and task lists next to decodes. A generic image's At becomes a device event.
+func HashEntry(fn int, img image.Image) *Entry {
+	return &Entry{Name: "imagehash." + HashNames[fn], Call: func(env *Env, r *world.SimReader, res *Result) {
+		if h, ok := img.(atHooker); ok {
+			n := 0
+			h.SetOnAt(func() {
+				if n++; n%64 == 0 { // every 64th pixel access is a scheduling point
+					r.Dev.Event("at")
+				}
+			})
+			defer h.SetOnAt(nil)
+		}
+		hr := Hash(fn, img)
+		res.Fields = &Fields{}
+		res.Fields.add("Hash", fmt.Sprintf("%016x%016x%016x%016x", hr.Words[0], hr.Words[1], hr.Words[2], hr.Words[3]))
+		res.Err, res.ErrNil = hr.Err, hr.ErrOK
+		if hr.Panic != nil {
+			panic(hashPanic{hr.Panic})
+		}
+	}}
+}
+
+type hashPanic struct{ pi *PanicInfo }
